@@ -79,7 +79,6 @@ def on_run(rec, run, w, size):
 def on_case(rec, case):
     rec.count("traces")
     rec.count("transitions", len(case.log.hits))
-    rec.mark("states", case.data)
     rec.mark("outcomes", trees.shape(case.tree))
     rec.count("decoded_nodes_checked", check(rec, case.tree, case.log, streams.registry(), case.depth, case.witness(), case.size))
 
